@@ -25,6 +25,8 @@ def inU32 (i : Int) : Bool := 0 ≤ i && i < 4294967296
 def inU64 (i : Int) : Bool := 0 ≤ i && i < 18446744073709551616
 def inI64 (i : Int) : Bool := -9223372036854775808 ≤ i && i < 9223372036854775808
 def bytesOk (b : List Nat) : Bool := b.all (· < 256)
+/-- an enum value protobuf takes (int32; the model has no negative enum value): `WatchResult(source=2**31)` is a ValueError -/
+def inEnum (n : Nat) : Bool := n < 2147483648
 
 mutual
   inductive PyVal where
